@@ -1,7 +1,8 @@
 (** C15 — a bridge node stores exactly the block it announces or was asked to keep.
     Property theorems only; each is closed by [exact] of a lemma of Core/ListenerProofs.v.
     Model: Core/Listener.v — [handle] (core/listener.go handleNewBlockEvent + handleNewSignedBlock + core/eds.go storeEDS),
-    [exchange_get] (core/exchange.go), [shares_available] (share/availability/full), over a store that never rebinds a
+    [exchange_get] (core/exchange.go GetByHeight), [exchange_get_by_hash] (core/exchange.go Get: header by hash, the
+    served block is kept only if its header hash is the requested one), [shares_available] (share/availability/full), over a store that never rebinds a
     height.  A history is any list of such operations; every failure is an oracle value carried by the operation, so
     the theorems hold for every pattern of fetch / sync-status / store / getter failures, any number of endpoints, any
     order, duplicates, gaps and replays. *)
@@ -77,6 +78,19 @@ Theorem C15_failed_exchange_leaves_nothing : forall cfg st r,
 Proof. exact failed_exchange_leaves_nothing. Qed.
 Print Assumptions C15_failed_exchange_leaves_nothing.
 
+Theorem C15_failed_hash_leaves_nothing : forall cfg st r,
+  (forall h d, snd (exchange_get_by_hash cfg st r) <> XHeader h d) -> unchanged st (fst (exchange_get_by_hash cfg st r)).
+Proof. exact failed_hash_leaves_nothing. Qed.
+Print Assumptions C15_failed_hash_leaves_nothing.
+
+(** A header request by hash answered with a block whose header hash is not the requested one is a failed ingest:
+    nothing of the served block is kept and no header is returned. *)
+Theorem C15_hash_mismatch_leaves_nothing : forall cfg st r,
+  h_hash_ok r = false ->
+  unchanged st (fst (exchange_get_by_hash cfg st r)) /\ forall h d, snd (exchange_get_by_hash cfg st r) <> XHeader h d.
+Proof. exact hash_mismatch. Qed.
+Print Assumptions C15_hash_mismatch_leaves_nothing.
+
 (** Every successfully obtained block that is to be kept (inside the window, or archival) is in the store at the end
     of any history that contains its announcement (unless the node crashed on a wrong-chain block), whatever failed
     before - and if it was not stored before that announcement, it is stored with the block's DAH and its header was
@@ -102,3 +116,17 @@ Theorem C15_nonvacuous :
   given Ex.pruned = [(7, 70)] /\
   fst (run_codes (mkcfg false) init Ex.hist) = [2; 7; 1; 4; 6; 7; 3; 32; 30; 1].
 Proof. exact nonvacuous_history. Qed.
+Print Assumptions C15_nonvacuous.
+
+(** non-vacuity of the by-hash path: a mismatching answer (height 9, DAH 90) and a failed commit query keep nothing; the
+    requested block is then stored and its later announcement is a duplicate; height 9 is still announced and stored
+    with the announced block's DAH 91. *)
+Theorem C15_nonvacuous_by_hash :
+  Forall well_served Ex.hhist /\ Forall (consistent (fun d => 1000 + d)) Ex.hhist /\
+  fst (run_codes (mkcfg false) init Ex.hhist) = [20; 20; 22; 1; 7] /\
+  store (run (mkcfg false) init (firstn 2 Ex.hhist)) = [] /\
+  lookup 8 (store (run (mkcfg false) init Ex.hhist)) = Some (mkstored 80 true true false) /\
+  lookup 9 (store (run (mkcfg false) init Ex.hhist)) = Some (mkstored 91 true true false) /\
+  given (run (mkcfg false) init Ex.hhist) = [(8, 80)] /\ map p_height (published (run (mkcfg false) init Ex.hhist)) = [9].
+Proof. exact nonvacuous_by_hash. Qed.
+Print Assumptions C15_nonvacuous_by_hash.
